@@ -103,7 +103,7 @@ def check_case(ctx, ds, labels_name, n, schemes, only=None):
             except Exception:
                 ctx.violation('score-not-a-number', case(ds, labels_name, n, s, c), repr(got), exp)
                 continue
-            if not abs(gotf - exp) <= 1e-9 * max(1.0, abs(exp)):
+            if not abs(gotf - exp) <= 1e-9:
                 ctx.violation('score-mismatch', case(ds, labels_name, n, s, c), gotf, exp,
                               message='reference pair counters ordered=%r tied=%r' % (s1, s2))
             ctx.outcome((tuple(s1[1:]), s2[0] + s2[1], s2[3] + s2[4], s2[5]))
@@ -154,7 +154,7 @@ def histories(ctx, ds0, lname, n, schemes):
                 except Exception as e:
                     ctx.violation('score-raises-after-the-dataset-was-mutated', cs, None, exp, exc=e)
                     break
-                if not abs(got - exp) <= 1e-9 * max(1.0, abs(exp)):
+                if not abs(got - exp) <= 1e-9:
                     ctx.violation('score-mismatch-after-the-dataset-was-mutated', cs, got, exp)
                     break
             ctx.count('histories_factory_reused_across_a_mutation')
